@@ -425,8 +425,14 @@ def job_registry(res):
     for n in ign:
         o = reg['cfgfile'][n]; share = used.get(o.store_to, set()) - set(ign)
         res.obs.append(Ob('compatibility option "%s" is accepted in a config file and bound to a variable no other option uses (ignored without effect)' % n, 'holds' if not share else 'violated', key='registry-ignored'))
+    # ... and still accepted with the values old configuration files carry: the switch takes boolean words (true/false/on/off/yes/no/1/0), the others whole numbers
+    kinds = {'HaissinskiIterations': ('u32', 'u64', 'i32', 'i64'), 'InitialDistParam': ('u32', 'u64', 'i32', 'i64'), 'RotationType': ('u32', 'u64', 'i32', 'i64'), 'SaveSourceMap': ('b',)}
     for n in ('HaissinskiIterations', 'InitialDistParam', 'RotationType', 'SaveSourceMap'):
         res.obs.append(Ob('compatibility option "%s" is still accepted' % n, 'holds' if n in ign else 'violated', key='registry-ignored'))
+        if n in ign:
+            okt = reg['cfgfile'][n].ty in kinds[n]
+            res.obs.append(Ob('compatibility option "%s" still takes %s (so that a line "%s=%s" of an old configuration file is ignored, not refused)' % (n, 'boolean words' if kinds[n] == ('b',) else 'a whole number', n, 'true' if kinds[n] == ('b',) else '2'),
+                              'holds' if okt else 'violated', key='registry-ignored', detail='' if okt else 'declared type: %s' % reg['cfgfile'][n].ty, cex=None if okt else {'replay': 'parse-compat', 'option': n, 'value': 'true' if kinds[n] == ('b',) else '2'}))
     # overlapping variables: no two different canonical options share storage
     for a, ns in used.items():
         canon = {n for n in ns if n in reg['cmdline']}
@@ -539,6 +545,9 @@ def job_main_exit(res):
 def replayer(bld):
     bld = parse_build()
     def rp(path, c):
+        if c.get('replay') == 'parse-compat':
+            nat = native_parse(bld, 'cfg', [], ['%s=%s' % (c['option'], c['value'])])
+            return (nat['threw'] != 0 or nat['ret'] != 1, 'native parse() of a config file with the line "%s=%s": %s' % (c['option'], c['value'], 'threw (%s)' % nat.get('what', '') if nat['threw'] else 'returned %d' % nat['ret']))
         if c.get('replay') == 'parse-char':
             n = c['option']; nat = native_parse(bld, 'cfg', ['--' + n, '1'] if c['group'] == 'cmdline' else [], ['%s=1' % n] if c['group'] != 'cmdline' else [])
             ty, bits = nat['var'].get(n, ('?', '0')); got = int(bits, 16) if ty != '?' else None
